@@ -184,11 +184,9 @@ func (m *truthModel) eval(n *ref.Node) mval {
 			}
 			return b
 		case "??":
-			if a.meaning().Kind == "nilptr" {
-				// a typed nil pointer is "equal to null" (C16) but whether ?? treats it as null is left open
-				m.unspec = true
-			}
-			if a.meaning().Kind == "null" {
+			// a typed nil pointer is null (C16: "typed nil pointers are null ... and equal to null"): `np === null`
+			// is true, so `np ?? b` yields b like any other null
+			if k := a.meaning().Kind; k == "null" || k == "nilptr" {
 				return b
 			}
 			return a
